@@ -166,7 +166,8 @@ class EquationSolver(object):
                     continue
                 try:
                     val = eval(eqn, globals(), time_zero_constants)
-                    if type(val) is int:
+                    if isinstance(val, int):
+                        # (includes the True/False of a comparison)
                         val = float(val)
                     if type(val) is float:
                         variables[var] = [val, ]
